@@ -88,7 +88,7 @@ pub fn cmd_target(data: &[u8]) -> Result<(), String> {
                 1 => c11::FSpec::Negate(Box::new(leaf)),
                 _ => c11::FSpec::And(Box::new(leaf), Box::new(c11::FSpec::Exists(c11::TagSpec::Any))),
             };
-            let res = catch(|| c11::check(&c11::Case { spec, carrier: c11::Carrier::Find })).map_err(|p| format!("C11: panic {p}"))?;
+            let res = catch(|| c11::check(&c11::Case { spec, carrier: c11::Carrier::Find, list: None })).map_err(|p| format!("C11: panic {p}"))?;
             if let Outcome::Fail(e) = res.outcome {
                 return Err(format!("C11: {e}"));
             }
